@@ -104,6 +104,55 @@ fn main() {
           let _ = tokio::time::timeout(Duration::from_secs(5), ctx.term()).await;
           accepts.len() >= 2 && matches!(r, Ok(Ok(_)))
         }
+        "P" => {
+          // a PUSH sender loop must end after its peer closed and the context terminated
+          let pull = ctx.socket(SocketType::Pull).unwrap();
+          util::set_i32(&pull, opt::RCVHWM, 100).await;
+          let ep = util::bind_fresh(&pull, util::Transport::Tcp).await.unwrap();
+          let push = ctx.socket(SocketType::Push).unwrap();
+          util::set_i32(&push, opt::SNDHWM, 100).await;
+          let _ = push.connect(&ep).await;
+          let p2 = push.clone();
+          let sender = tokio::spawn(async move {
+            let mut errs = 0;
+            loop {
+              if p2.send(util::msg(vec![0x42; 2000], false)).await.is_err() {
+                errs += 1;
+                if errs > 3 {
+                  break;
+                }
+              }
+            }
+          });
+          let p3 = push.clone();
+          let setter = tokio::spawn(async move {
+            for _ in 0..100000 {
+              if p3.set_option(opt::SNDTIMEO, -1).await.is_err() {
+                break;
+              }
+              tokio::time::sleep(Duration::from_millis(1)).await;
+            }
+          });
+          let reader = if it % 2 == 0 {
+            let pl = pull.clone();
+            Some(tokio::spawn(async move { while pl.recv().await.is_ok() {} }))
+          } else {
+            None
+          };
+          tokio::time::sleep(Duration::from_micros((it as u64 * 137) % 6000)).await;
+          let _ = pull.close().await;
+          tokio::time::sleep(Duration::from_micros((it as u64 * 911) % 30000)).await;
+          let _ = tokio::time::timeout(Duration::from_secs(20), ctx.term()).await;
+          let ok = tokio::time::timeout(Duration::from_secs(5), sender).await.is_ok();
+          if !ok {
+            println!("iter {}: PUSH sender loop still running 5 s after term()", it);
+          }
+          setter.abort();
+          if let Some(r) = reader {
+            r.abort();
+          }
+          ok
+        }
         "Q" => {
           // does ReadyPipeQueue::close() release a blocked pop() while a sender clone is still alive?
           let q = std::sync::Arc::new(rzmq::verif::Rpq::<u32>::new(4));
